@@ -1119,7 +1119,17 @@ Proof.
     exists (concat (firstn (Z.to_nat n) (rotate i (map knode (gnodes g))))).
     split; [exact A|]. split; [exact B|]. split; [|exact Hk].
     apply (f_equal Z.of_nat) in C. rewrite Z2Nat.id in C by exact En. exact C. }
-  destruct rho as [r|]; apply Hgen; exact H.
+  destruct rho as [r|]; [|apply Hgen; exact H].
+  destruct r0 as [l0|]; [|apply Hgen; exact H].
+  case_eq kind; intro Ek; rewrite Ek in H, Hgen.
+  - unfold gillespie in H. inversion H.
+  - apply Hgen. exact H.
 Qed.
+
+(* Gillespie_SIR: rho together with initial_recovereds is rejected, as fast_SIR does (repaired in /repo: without the
+   guard random.sample could draw an initially recovered node as initially infected) *)
+Lemma gillespie_rho_and_recovereds_rejected : forall i0 l0 rho fuel, kind = SIR ->
+  gillespie g kind tau gamma i0 (Some l0) (Some rho) tmin tmax full fuel = Fail EoNError.
+Proof. intros i0 l0 rho fuel Ek. rewrite Ek. destruct i0; reflexivity. Qed.
 
 End Runs.
